@@ -1177,6 +1177,34 @@ def flat_nodes(fn, pred, depth=2, _seen=(), _anchor=None, _names=None):
     return out
 
 
+def reachable_under(fn, start, targets, atom_value):
+    """Can a block holding one of `targets` (nodes) be reached from `start` (None = function entry) when every two-way
+    branch whose deciding operand has a known truth value in the abstract state is followed along its feasible edge only?"""
+    cfg = fn.cfg
+    b0 = cfg.node_block(start) if start is not None else cfg.entry
+    tb = {cfg.node_block(t) for t in targets} - {None}
+    if b0 is None:
+        return True
+    seen, st = set(), [b0]
+    while st:
+        b = st.pop()
+        if b in seen:
+            continue
+        seen.add(b)
+        if b in tb and not (b == b0 and start is not None and all((cfg.node_pos(t) or (0, 0))[1] < (cfg.node_pos(start) or (0, 0))[1] for t in targets if cfg.node_block(t) == b)):
+            return True
+        blk = cfg.blocks[b]
+        succ = blk['succ']
+        if blk.get('tc') is not None and len(succ) == 2 and None not in succ:
+            atom, neg = cfg.branch_atom(b)
+            v = eval3(atom, atom_value) if is_node(atom) else None
+            if v is not None:
+                st.append(succ[0] if (v != neg) else succ[1])
+                continue
+        st.extend(x for x in succ if x is not None)
+    return False
+
+
 def exit_reachable_under(fn, start, avoid, atom_value):
     """Can the normal exit be reached from node `start` without passing through a block of `avoid` (nodes), when
     every two-way branch whose deciding operand has a known truth value (atom_value(atom) -> True/False, None when
